@@ -335,7 +335,9 @@ def harvest(ctx, rep, f_ga, f_sh):
         tour, parents, rate = ctx.rng.randint(2, 4), ctx.rng.randint(2, 4), ctx.rng.choice([0.0, 0.125, 0.5, 1.0])
         obj = L.Objective(ctx.rng.choice(["onemax", "plateau", "weighted"]))
         records, shapes = [], []
-        with L.log_mode():
+        REC_NAMES = (["thefittest.utils.selections." + x for x in ("proportional_selection", "rank_selection", "tournament_selection")] +
+                     [CX + x for x in CODES] + ["thefittest.utils.mutations.flip_mutation"])
+        with L.log_mode(REC_NAMES):
             if kind == "SHAGA":
                 opt = SHAGA(obj, iters=4, pop_size=pop, str_len=n, random_state=seed)
                 orig = opt._get_new_individ_g
@@ -356,10 +358,12 @@ def harvest(ctx, rep, f_ga, f_sh):
 
                 def w(sn, cn, mn, orig=orig, opt=opt):
                     start = len(MR.TAPE.log)
+                    c0 = len(L.REC.calls)
                     pg, fs, fr = L.snap(opt._population_g_i), L.snap(opt._fitness_scale_i), L.snap(opt._fitness_rank_i)
                     out = orig(sn, cn, mn)
                     records.append(dict(kind="ga", names=(str(sn), str(cn), str(mn)), pop=pg, fscale=fs, frank=fr, out=L.snap(out),
-                                        draws=list(MR.TAPE.log[start:]), unmodified=L.same(pg, opt._population_g_i)))
+                                        draws=list(MR.TAPE.log[start:]), unmodified=L.same(pg, opt._population_g_i),
+                                        calls=list(L.REC.calls[c0:])))
                     return out
                 opt._get_new_individ_g = w
             opt._on_generation = lambda o: shapes.append((L.snap(o._population_g_i),))
@@ -385,6 +389,25 @@ def harvest(ctx, rep, f_ga, f_sh):
                 case = dict(fn="_get_new_individ_g", optimizer=kind, names=[sn, cn, mn], tour_size=tour, parents_num=parents, mutation_rate=rate,
                             pop=np.asarray(r["pop"]).tolist(), fscale=list(map(float, r["fscale"])), frank=list(map(float, r["frank"])),
                             draws=draws, out=[int(v) for v in r["out"]], seed=seed)
+                # argument-level wiring: what the optimizer handed to the configured operators (donor identity is
+                # invisible in converged binary populations, the arguments are not)
+                calls = r.get("calls", [])
+                if len(calls) == 3:
+                    selc, cxc, muc = calls
+                    ids = np.asarray(selc["out"]).astype(int)
+                    pg_, fs_, fr_ = np.asarray(r["pop"]), np.asarray(r["fscale"]), np.asarray(r["frank"])
+                    okargs = (L.same(selc["args"][0], fs_) and L.same(selc["args"][1], fr_)
+                              and L.same(cxc["args"][0], pg_[ids]) and L.same(cxc["args"][1], fs_[ids]) and L.same(cxc["args"][2], fr_[ids])
+                              and L.same(muc["args"][0], cxc["out"]) and all(c["inputs_unmodified"] for c in calls))
+                    if not okargs:
+                        rep.problem("wiring", f"{kind} with ({sn}, {cn}, {mn}): the operators did not receive (population[selected], "
+                                    "scaled fitness[selected], rank[selected]) / the crossover's child, or an operator modified its inputs",
+                                    dict(fn="_get_new_individ_g", optimizer=kind, names=[sn, cn, mn], selected=ids.tolist(), seed=seed,
+                                         crossover_fitness_arg=np.asarray(cxc["args"][1]).tolist(), crossover_rank_arg=np.asarray(cxc["args"][2]).tolist(),
+                                         fscale_selected=fs_[ids].tolist(), frank_selected=fr_[ids].tolist()),
+                                    f"wiring-args:{cn}", True, None, None, "C06_new_individual")
+                elif calls:
+                    rep.hist("unexpected_call_count", len(calls))
                 try:
                     exp, left = expected_child(kind, (sn, cn, mn), tour, parents, rate, r["pop"], r["fscale"], r["frank"], draws)
                 except MR.DrawError as e:
